@@ -118,6 +118,15 @@ let run (toks : string list) (cout : string list) : string =
   | ["vdst"; op; a; b; _] -> vdst op a b cout
   | "idst" :: _ -> if all_equal cout && cout <> [] then "CHECK ok" else "CHECK fail: interval results differ between output operands"
   | "rc" :: rest -> rc rest
+  | "isub" :: _ ->
+    (* tokens come in pairs tag:interval (separate copy of the value, then the interval's own end): each pair must agree *)
+    let rec pairs = function
+      | a :: b :: r -> if a = b then pairs r else Some (a, b)
+      | _ -> None in
+    let toks = List.filter (fun x -> String.length x > 3 && x.[2] = ':') cout in
+    (match pairs toks with
+     | None -> "CHECK ok"
+     | Some (a, b) -> "CHECK fail: with a copy of the value: " ^ a ^ ", with the interval's own end as the argument: " ^ b)
   | "vlist" :: nv :: ids ->
     (* plain list semantics: position of first occurrence; every pushed id is contained; order = list position *)
     let nv = int_of_string nv in
